@@ -106,6 +106,17 @@ def c01_unescape_instability(case, observed, expected):
                                                         "vUTCOffset", "vBoolean", "vFloat", "vBinary", "vTime", "vDatetime", "vDate")
 
 
+def c01_param_backslash_lost(case, observed, expected):
+    """the first parse produced a parameter value containing a backslash (from a literal backslash or a
+    %5C sequence in the text); written back, that backslash escapes the delimiter that follows the
+    parameter, so the second parse loses or restructures exactly this property (mechanism of C05-K2 / C08-K1)"""
+    d = (case.get("diff") or {})
+    a = d.get("a")
+    if d.get("what") != "prop" or not (isinstance(a, list) and len(a) in (4, 5)):
+        return False
+    return any("\\" in str(v) for _k, v in a[2])
+
+
 # ---------------------------------------------------------------- C02
 def c02_attach_binary(case, observed, expected):
     return case.get("n") == "ATTACH" and case.get("k") == "binary" and isinstance(observed, dict) and observed.get("decoded_type") == "URI" \
